@@ -136,7 +136,7 @@ class EReject(Engine):
             return self.queue.pop(0) if self.queue else None
         B = self.B
         how = g.pick(['prop', 'prop', 'prop_named', 'slice_int', 'slice_int', 'append_token', 'pack', 'build', 'ctor', 'arr_set', 'arr_append', 'arr_insert',
-                      'arr_extend', 'illegal_length', 'bad_digits', 'token_len_mismatch'])
+                      'arr_extend', 'illegal_length', 'bad_digits', 'token_len_mismatch', 'ctor_strlen'])
         tgt = g.pick(['ba', 'bs'])
         obj = self.ba if tgt == 'ba' else self.bs
         n = len(obj)
@@ -160,6 +160,12 @@ class EReject(Engine):
         elif how in ('arr_set', 'arr_append', 'arr_insert', 'arr_extend'):
             d = self.arr.dtype
             ev.update(v=boundary_values(g, d.name, d.bitlength), i=g.int(-2, 5), v2=boundary_values(g, d.name, d.bitlength))
+        elif how == 'ctor_strlen':
+            name = g.pick(['hex', 'bin', 'oct', 'bits'])
+            per = {'hex': 4, 'bin': 1, 'oct': 3, 'bits': 1}[name]
+            k = g.int(1, 6)
+            implied = per * k
+            ev.update(name=name, digits=k, length=g.pick([implied, implied, implied - per, implied + per, implied + 1, 0, 1]), cls=g.pick(CLASSES), dseed=g.int(0, 10 ** 6))
         elif how == 'illegal_length':
             ev.update(tok=g.pick(['float:12=1.0', 'float:0=1.0', 'bool:2=1', 'uintle:12=1', 'intbe:7=1', 'hex:7=a', 'oct:4=7', 'uint:0=0', 'int:0=0', 'bfloat:8=1.0',
                                   'floatle:24=1', 'uintne:4=1', 'e4m3mxfp:7=1']),
@@ -340,6 +346,21 @@ class EReject(Engine):
                 st, r = call(self.arr.extend, [v, v2])
             if expect is False:
                 self.probe('array_write_rejected')
+        elif how == 'ctor_strlen':
+            # a length stated together with a value whose own length is different must be rejected (every route)
+            name = ev.get('name') if ev.get('name') in ('hex', 'bin', 'oct', 'bits') else 'hex'
+            per = {'hex': 4, 'bin': 1, 'oct': 3, 'bits': 1}[name]
+            k = ev.get('digits', 1) if isinstance(ev.get('digits', 1), int) and 0 < ev.get('digits', 1) <= 64 else 1
+            ln = ev.get('length', 0) if isinstance(ev.get('length', 0), int) else 0
+            r_ = kernel.Gen(ev.get('dseed', 0) if isinstance(ev.get('dseed', 0), int) else 0)
+            digs = ''.join(r_.pick({'hex': '0123456789abcdef', 'bin': '01', 'oct': '01234567', 'bits': '01'}[name]) for _ in range(k))
+            val = ('0b' + digs) if name == 'bits' else digs
+            C = getattr(B, ev.get('cls') if ev.get('cls') in CLASSES else 'Bits')
+            expect = (ln == per * k)
+            want_len = ln
+            trig = f'ctor-strlen:{name}'
+            st, r = call(lambda: C(**{name: val, 'length': ln}))
+            new_obj = r if st == 'ok' else None
         elif how in ('illegal_length', 'bad_digits', 'token_len_mismatch'):
             C = getattr(B, ev.get('cls') if ev.get('cls') in CLASSES else 'Bits')
             tok = str(ev.get('tok', 'uint:0=0'))
